@@ -383,7 +383,7 @@ def driver(cinco, desc, seed, n_traces, length):
             for _ in range(length):
                 r = rng.random()
                 if r < 0.6:
-                    which = rng.choice(["dflt", "dl", "name", "pw", "hash", "blob", "bl", "sl", "nl", "dd", "api", "sub.tok", "vault", "vault.sec", "vault.inner.tok", "items", "sitems", "sub.port", "vault.inner.n"])
+                    which = rng.choice(["dflt", "dl", "name", "pw", "hash", "blob", "bl", "sl", "nl", "dd", "api", "sub.tok", "vault", "vault.sec", "vault2", "vault2.sec", "vault.inner.tok", "items", "sitems", "sub.port", "vault.inner.n"])
                     path, key = which.rsplit(".", 1) if "." in which else ("", which)
                     p = path.split(".") if path else []
                     if key in ("name", "api"):
@@ -407,7 +407,7 @@ def driver(cinco, desc, seed, n_traces, length):
                         v = {"t": "list", "l": [{"t": "list", "l": [S(rnd_text(rng, 6, 10, edge=False)) if rng.random() < 0.8 else S("") for _ in range(rng.randint(0, 2))]} for _ in range(rng.randint(0, 2))]}
                     elif key == "dd":
                         v = {"t": "dict", "kv": [[S(k), B(rng.randint(0, 5), rng)] for k in rng.sample(["k1", "k2", "zz", "a-b", "a.b", "a_b"], rng.randint(0, 3))]}
-                    elif key == "vault":
+                    elif key in ("vault", "vault2"):
                         v = D(sec=S(rnd_text(rng, 6, 10, edge=False)))
                     elif key in ("port", "n"):
                         v = {"t": "int", "i": rng.randint(0, 9999)}
